@@ -173,6 +173,17 @@ func hostileProgs(rng *rand.Rand, n int) [][]tStmt {
 		}
 		out = append(out, []tStmt{{Op: "E"}, {Op: no}})
 	}
+	// every step that replaces what a traveler carries (count, aggregation, render, path, selection) followed by
+	// every other step: the ones the compiler accepts there must cope with a traveler that is not an element
+	producers := []tStmt{{Op: "count"}, {Op: "aggregate", Aggs: []tAgg{{Name: "a", Kind: "term", Field: "name"}}},
+		{Op: "aggregate", Aggs: []tAgg{{Name: "h", Kind: "histogram", Field: "w", Interval: 2}, {Name: "c", Kind: "count"}}},
+		{Op: "render", Tpl: map[string]interface{}{"a": "name"}}, {Op: "path"}, {Op: "select", Strs: []string{"m1", "m1"}}}
+	for _, pr := range producers {
+		for _, f := range follow {
+			out = append(out, []tStmt{{Op: "V"}, {Op: "as", Str: "m1"}, pr, f})
+			out = append(out, []tStmt{{Op: "E"}, {Op: "as", Str: "m1"}, pr, f, {Op: "as", Str: "m2"}, {Op: "limit", N: 3}})
+		}
+	}
 	// steps on unloaded elements
 	for _, f := range follow {
 		out = append(out, []tStmt{{Op: "V"}, {Op: "outE"}, f, {Op: "out"}})
